@@ -1,5 +1,6 @@
 import PeptVerif.Model.ModDbGen
 import PeptVerif.Lemmas.GlycanRT
+import PeptVerif.Lemmas.NumText
 /-!
 C15, glycan half: property theorems.
 
@@ -198,5 +199,78 @@ theorem synonym_invariant_gen (g acc : Comp) (isMono : Bool) :
 example : mapKeys (canon MONO) [(str% "Fucose", Num.ofInt 1), (str% "S", Num.ofInt 2), (str% "Hex", Num.ofInt 3)] =
     [(str% "Fuc", Num.ofInt 1), (str% "sulfate", Num.ofInt 2), (str% "Hex", Num.ofInt 3)] := by
   decide +kernel
+
+/-! ## 2. write → parse round trip (sep = '') -/
+
+/-- the tokenizer on a written dict: every item is read back as written and *assigned* (`foldSet`), whenever the
+written form is unambiguous (`Unambig`, a decidable predicate) in a longest-first vocabulary without empty names -/
+theorem glycan_parse_write_fold (names : List Str) (g d : Comp)
+    (hne : ∀ nm ∈ names, nm ≠ []) (hs : names.Pairwise (fun a b => b.length ≤ a.length))
+    (hu : Unambig names g = true) (hv : ∀ kv ∈ g, NumOK kv.2) :
+    parseGlycanAux names 0 (writeGlycan g []) d = .ok (foldSet d g) :=
+  parseGlycanAux_write names hne hs g d hu hv
+
+/-- round trip: with pairwise different keys the parsed dict is the written one -/
+theorem glycan_parse_write (names : List Str) (g : Comp)
+    (hne : ∀ nm ∈ names, nm ≠ []) (hs : names.Pairwise (fun a b => b.length ≤ a.length))
+    (hu : Unambig names g = true) (hv : ∀ kv ∈ g, NumOK kv.2) (hk : (g.map (·.1)).Nodup) :
+    parseGlycanAux names 0 (writeGlycan g []) [] = .ok g := by
+  rw [parseGlycanAux_write names hne hs g [] hu hv, foldSet_distinct g [] (by simpa [gkeys] using hk)]
+  rfl
+
+/-- the same through `parse_glycan_formula` for the generated table, counts being Python ints or finite decimals -/
+theorem glycan_parse_write_gen (g : Comp) (hu : Unambig (namesSorted MONO) g = true)
+    (hv : ∀ kv ∈ g, NumWF kv.2) (hk : (g.map (·.1)).Nodup) :
+    parseGlycan MONO (writeGlycan g []) [] = .ok g := by
+  have h := glycan_parse_write (namesSorted MONO) g names_nonempty namesSorted_sorted_gen hu
+    (fun kv hkv => numOK_of_wf kv.2 (hv kv hkv)) hk
+  unfold parseGlycan
+  cases g with
+  | nil => rfl
+  | cons kv r =>
+    obtain ⟨nm, v⟩ := kv
+    have hmem : nm ∈ namesSorted MONO := by
+      simp only [Unambig, Bool.and_eq_true, List.contains_iff_mem] at hu
+      exact hu.1.1.1
+    have hne := names_nonempty nm hmem
+    have : (writeGlycan ((nm, v) :: r) []).isEmpty = false := by
+      rw [writeGlycan_cons]
+      cases nm with
+      | nil => exact absurd rfl hne
+      | cons c t => rfl
+    rw [this]
+    exact h
+
+example : Unambig (namesSorted MONO)
+    [(str% "HexNAc", Num.ofInt 2), (str% "Hex", Num.ofInt 3), (str% "Neu", Num.ofInt 1)] = true := by
+  decide +kernel
+example : Unambig (namesSorted MONO)
+    [(str% "HexNAc", Num.ofInt 2), (str% "Hex", ⟨5/2, true⟩), (str% "Neu", Num.ofInt (-1))] = true := by
+  decide +kernel
+example : writeGlycan [(str% "HexNAc", Num.ofInt 2), (str% "Hex", ⟨5/2, true⟩), (str% "Neu", Num.ofInt (-1))] [] =
+    str% "HexNAc2Hex2.5Neu-1" := by decide +kernel
+/-- `{Neu: 5, Ac: 1}` is written `Neu5Ac1`, which is not unambiguous … -/
+example : Unambig (namesSorted MONO) [(str% "Neu", Num.ofInt 5), (str% "Ac", Num.ofInt 1)] = false := by
+  decide +kernel
+
+/-- … and indeed does not survive: it reads back as `{Neu5Ac: 1}` (so the hypothesis `Unambig` cannot be dropped) -/
+theorem glycan_parse_write_ambiguous_counterexample :
+    parseGlycan MONO (writeGlycan [(str% "Neu", Num.ofInt 5), (str% "Ac", Num.ofInt 1)] []) [] =
+      .ok [(str% "Neu5Ac", Num.ofInt 1)] := by
+  decide +kernel
+
+/-- a repeated key is assigned, not accumulated: `Hex2Fuc1Hex3` reads as `{Hex: 3, Fuc: 1}` -/
+theorem glycan_parse_repeated_key_assigns :
+    parseGlycan MONO (str% "Hex2Fuc1Hex3") [] = .ok [(str% "Hex", Num.ofInt 3), (str% "Fuc", Num.ofInt 1)] := by
+  decide +kernel
+
+/-- composition and mass of the written text are those of the dict it was written from -/
+theorem glycan_str_eq_dict (g : Comp) (isMono : Bool) (hu : Unambig (namesSorted MONO) g = true)
+    (hv : ∀ kv ∈ g, NumWF kv.2) (hk : (g.map (·.1)).Nodup) :
+    glycanCompStr MONO (writeGlycan g []) = glycanCompDict MONO g [] ∧
+      glycanMassStr MONO isMono (writeGlycan g []) = glycanMassDict MONO isMono g := by
+  unfold glycanCompStr glycanMassStr
+  rw [glycan_parse_write_gen g hu hv hk]
+  exact ⟨rfl, rfl⟩
 
 end C15Glycan
